@@ -494,7 +494,11 @@ impl Prop for C06 {
                     continue;
                 }
                 let mut f = base.clone();
-                let (stmts, variant, needs_global) = violation(*rule, rng, cap);
+                let (mut stmts, variant, needs_global) = violation(*rule, rng, cap);
+                if wild && !stmts.is_empty() && rng.chance(1, 2) {
+                    // multi-byte text right before the offending construct (often on the same line)
+                    stmts.insert(0, print_(GExpr::str("ünï 😀 日本")));
+                }
                 if needs_global {
                     let at = rng.below(f.items.len() + 1);
                     f.items.insert(at, Item::Global(GGlobal { name: "zq_global".into(), quant: Quant::One, default: None, loc: Loc::default() }));
@@ -561,8 +565,8 @@ impl Prop for C06 {
                         out.violation("C06:load-panic", &format!("{}: {}", p.location, p.message), case());
                         return;
                     }
-                    Loaded::Err(ParseError::Check(ce)) => {
-                        let (got_rule, loc) = rule_of(&ce);
+                    Loaded::Err(ref pe @ ParseError::Check(ref ce)) => {
+                        let (got_rule, loc) = rule_of(ce);
                         if got_rule != *rule {
                             out.violation(&format!("C06:wrong-rule:{}", rule.name()), &format!("broke {} ({}), reported as {}: {}", rule.name(), variant, got_rule.name(), ce), case());
                             return;
@@ -570,6 +574,24 @@ impl Prop for C06 {
                         if !want.locs.iter().any(|l| l.row == loc.row && l.col == loc.column) {
                             out.violation(&format!("C06:wrong-location:{}", rule.name()), &format!("{} ({}) reported at ({}, {}), the offending construct is at {:?}", rule.name(), variant, loc.row, loc.column, want.locs), case());
                             return;
+                        }
+                        // the rendered report cites the same place (1-based line and character column)
+                        let rendered = crate::util::catch(|| format!("{}", pe.display_pretty(std::path::Path::new("rules.tsg"), &ftext)));
+                        match rendered {
+                            Err(p) => {
+                                out.violation("C06:render-panic", &format!("{}: {}", p.location, p.message), case());
+                                return;
+                            }
+                            Ok(r) => {
+                                let header = format!("rules.tsg:{}:{}:", loc.row + 1, loc.column + 1);
+                                if !r.contains(&header) {
+                                    out.violation(&format!("C06:rendered-location-differs:{}", rule.name()), &format!("{} reported at ({}, {}) but the pretty report does not cite {}: {}", rule.name(), loc.row, loc.column, header, crate::util::trunc(&r, 400)), case());
+                                    return;
+                                }
+                                if ftext.lines().nth(loc.row).map(|l| l.chars().take(loc.column).any(|c| !c.is_ascii())).unwrap_or(false) {
+                                    out.feat("rendered_location_after_non_ascii_text");
+                                }
+                            }
                         }
                         out.feat(&format!("rejected:{}", rule.name()));
                         out.feat(&format!("rejected_in:{}@{}", kind.name(), (*depth).min(4)));
